@@ -22,11 +22,15 @@ from cgroup import Case
 from cprop import CompilerProp
 
 ID = "C01"
-LEAN_MODULES = ["FaxVerif.C01.Theorems"]
+LEAN_MODULES = ["FaxVerif.C01.Theorems", "FaxVerif.C01.TheoremsMiniAod"]
 LEAN_SOURCES = ["FaxVerif/C01", "FaxVerif/Gen", "FaxVerif/Cpp", "FaxVerif/Linq"]
 DRIVER = cgroup.DRIVER
 SETUP_MODULES = cgroup.DRIVER_IMPORTS  # what the driver imports
 THEOREMS = [
+    "FaxVerif.C01.eventRows_correct_miniaod_partial",
+    "FaxVerif.C01.elemRows_correct_miniaod_partial",
+    "FaxVerif.C01.miniaod_token_table",
+    "FaxVerif.C01.backendOK_cmsMiniAod",
     "FaxVerif.C01.pure_expr_correct",
     "FaxVerif.C01.eventRows_correct_partial",
     "FaxVerif.C01.elemRows_correct_partial",
@@ -57,20 +61,20 @@ TRUSTED_BASE = [
 ]
 ASSUMPTIONS = [
     "EDM accessors are pure and return values of the declared kinds (hypothesis MethTyped of the theorems)",
-    "theorems: success direction (the query denotes rows => the job writes them); backends ATLAS and CMS AOD (BackendOK); a floating Sum ranges over >=1 element (SumNonEmpty)",
+    "theorems: success direction (the query denotes rows => the job writes them); all three backends (BackendBase: ATLAS, CMS AOD, CMS miniAOD with its token table — proved instances); a floating Sum ranges over >=1 element (SumNonEmpty)",
 ]
 LEVEL_TEXT = (
     "Lean 4 compiler-correctness theorems for a compositional model of the translator on the fragment F0-lite, for every query of "
     "the fragment (unbounded chain length, expression size, number of columns), every event, every number model, END TO END for the "
     "whole emitted package: event-level rows with scalar (Count/Sum/arithmetic incl. the int/int division cast), vector and First "
-    "columns (eventRows_correct_partial) and element-level rows (elemRows_correct_partial); plus the building blocks: pure expressions "
+    "columns (eventRows_correct_partial) and element-level rows (elemRows_correct_partial), on ATLAS, CMS AOD and — with the token table the package itself emits proved to bind every retrieval to its bank (miniaod_token_table) — CMS miniAOD (eventRows_correct_miniaod_partial, elemRows_correct_miniaod_partial, which also give the class state left behind); plus the building blocks: pure expressions "
     "with faults (pure_expr_correct), the loop as a fold (loop_is_fold), the fused-Where and-lowering, hoisted declarations. The model is tied to the real translator on every run by text equality on generated fragment queries (three "
-    "backends). Beyond the fragment (nested loops, First, and/or/if-else in expressions, 2-D columns, miniAOD tokens) the property is "
+    "backends). Beyond the fragment (nested loops, First, and/or/if-else in expressions, 2-D columns) the property is "
     "checked by executing the implementation's own output in the Lean semantics against the Lean denotation — differential, not proof."
 )
 LEVEL_NOTE = (
-    "Proof frontier: F0-lite as stated (no loops nested inside lambdas, no and/or/if-else inside expressions, no 2-D columns, no "
-    "miniAOD tokens); success direction only. Defect exclusions (listed in known_findings.jsonl with concrete "
+    "Proof frontier: F0-lite as stated (no loops nested inside lambdas, no and/or/if-else inside expressions, no 2-D columns); "
+    "success direction only. Defect exclusions (listed in known_findings.jsonl with concrete "
     "inputs, the generator stays outside them): aggregates/First over SelectMany inside a lambda; lambda bodies that ignore their "
     "variable under First/aggregates; sequence-valued columns in element-level rows; Min/Max seeded with 0; Range with computed bounds; "
     "self-join through one shared node; bare collection-valued column."
